@@ -327,6 +327,46 @@ def _walk_all(it):
         yield from _walk_all(c)
 
 
+_FIRST_CACHE: dict = {}
+
+
+def _order_irrelevant(xg, name: str, a: list, b: list) -> bool:
+    """The alternatives of `name` are CPython's in another order.  That is behaviour-preserving when every pair that changed
+    relative order is disjoint on its first token (and neither can match empty): at most one of the two can succeed."""
+    from .c01 import _first_of_items
+    from .. import cpygram
+    if "fl" not in _FIRST_CACHE:
+        _FIRST_CACHE["fl"] = irtools.first_last(xg.rules, alt_ok=lambda al: not cpygram.has_invalid(al))
+    first, last, item_n, fl_item, consuming = _FIRST_CACHE["fl"]
+    alts = [al for al in xg.rules[name].alts if not cpygram.has_invalid(al)]
+    firsts = []
+    for al in alts:
+        if all(item_n(ni.item) for ni in al.items):
+            return False  # a nullable alternative always succeeds: order matters
+        firsts.append(_first_of_items(al.items, fl_item, first, item_n))
+    hard = set(keyword.kwlist)
+
+    def overlap(x: set, y: set) -> bool:
+        if x & y:
+            return True
+        for p, q in ((x, y), (y, x)):
+            if "NAME" in p and any(t.startswith(("'", '"')) and t.strip("'\"").isidentifier() and t.strip("'\"") not in hard for t in q):
+                return True
+            if "ANY_TOKEN" in p or "OP" in p and any(t.startswith("'") for t in q):
+                return True
+        return False
+
+    pos_b = {repr(sig): i for i, sig in enumerate(b)}
+    if len(pos_b) != len(b):
+        return False
+    order = [pos_b[repr(sig)] for sig in a]
+    for i in range(len(order)):
+        for j in range(i + 1, len(order)):
+            if order[i] > order[j] and overlap(firsts[i], firsts[j]):
+                return False
+    return True
+
+
 def rule_x7(chk: Check):
     """Sibling cross-check through time: Python rules that were CPython's own rule on the pinned tree still are."""
     from .. import cpygram
@@ -340,6 +380,8 @@ def rule_x7(chk: Check):
         if name not in cp.rules:
             raise AnalysisError(f"reference rule {name} missing from the vendored CPython grammar")
         a, b = cpygram.rule_sig(xg.rules[name]), cpygram.rule_sig(cp.rules[name])
+        if a != b and sorted(map(repr, a)) == sorted(map(repr, b)) and _order_irrelevant(xg, name, a, b):
+            continue  # same alternatives; the ones that changed places start with different tokens, so ordered choice cannot tell
         chk.require(a == b, "X7-cpython-sibling", name, str(xg.rules[name].pos),
                     f"`{name}` was structurally CPython's own rule and no longer is — {cpygram.describe_diff(a, b)}: text in the Python "
                     f"lexicon is now accepted or parsed differently from CPython")
